@@ -163,6 +163,7 @@ def run_program(prog, extra_formatters=None, reporters=None, config_hook=None, w
     msg_noise = noise.get("message", "")
     log, fmt = [], []
     faults = set((h, str(k)) for h, k in cfg.get("faults", []))
+    aborts = set((h, str(k)) for h, k in cfg.get("aborts", []))
     fault_kind = cfg.get("fault_kind", "exception")
 
     # ---- step definitions: one generic definition per kind, behaviour by kind
@@ -256,6 +257,10 @@ def run_program(prog, extra_formatters=None, reporters=None, config_hook=None, w
             key = key_of(args[0] if args else None)
             raises = (hname, key) in faults
             log.append(["hook", hname, key, raises])
+            if (hname, key) in aborts:
+                # the hook gives the run up (context.abort() is the documented way); it may still raise afterwards
+                log.append(["hookabort", hname, key])
+                context.abort()
             if hname.startswith("after_") and args and hasattr(args[0], "status") and cfg.get("peek_status", True):
                 # what after-hooks usually do first: look at how the element ended (`if scenario.status == "failed": ...`)
                 str(args[0].status)
